@@ -66,6 +66,15 @@ def makeGrid (east north : CoordArr) (extras : List Arr2) (data : Option (List A
 def CoordArr.toArr2 : CoordArr → Arr2
   | .d2 a => a
   | .d1 v => [v]
+/-- `np.ndim` of a coordinate array. -/
+def CoordArr.ndim : CoordArr → Nat
+  | .d2 _ => 2
+  | .d1 _ => 1
+/-- `f(*args)` for a function of exactly two positional arguments (`TypeError` for any other number). -/
+def star2 {β : Type} (f : CoordArr → CoordArr → Except Err β) (args : List CoordArr) : Except Err β :=
+  match args with
+  | [a, b] => f a b
+  | _ => .error .typeError
 /-- The common number of dimensions of the two horizontal coordinate arrays (`get_ndim_horizontal_coords`; `ValueError` if they differ). -/
 def ndimHorizontal (xy : List CoordArr) : Except Err Nat :=
   match xy with
